@@ -19,6 +19,8 @@ pub struct Heading {
     pub ctx: Vec<String>,
     pub level: u8,
     pub text: String,
+    /// the heading's plain text including the texts of links to notes (which `text` leaves out, as they are refreshed)
+    pub full_text: String,
     pub line: usize,
 }
 
@@ -183,15 +185,20 @@ pub fn read(text: &str, dir: &str) -> Reading {
     let mut list_counter = 0usize;
     let mut title_pending = false;
     let mut title_buf = String::new();
+    let mut head_full = String::new();
     let mut para_first_in_item = false;
     for (ev, range) in Parser::new_ext(text, options()).into_offset_iter() {
         match &ev {
-            Event::Start(Tag::Heading { .. }) => title_buf.clear(),
+            Event::Start(Tag::Heading { .. }) => {
+                title_buf.clear();
+                head_full.clear();
+            }
             Event::Start(Tag::Paragraph | Tag::BlockQuote(_) | Tag::CodeBlock(_) | Tag::List(_) | Tag::Table(_) | Tag::HtmlBlock) | Event::Rule => r.out.first_block_seen = true,
             Event::Text(t) | Event::Code(t) | Event::InlineMath(t) | Event::InlineHtml(t) => {
                 if title_pending {
                     title_buf.push_str(t);
                 }
+                head_full.push_str(t);
             }
             _ => {}
         }
@@ -216,7 +223,7 @@ pub fn read(text: &str, dir: &str) -> Reading {
                     } else {
                         let line = r.line_of(range.start);
                         let ctx = r.ctx();
-                        r.out.headings.push(Heading { ctx, level: l as u8, text: String::new(), line });
+                        r.out.headings.push(Heading { ctx, level: l as u8, text: String::new(), full_text: String::new(), line });
                         r.out.blocks.pop();
                         let idx = r.out.headings.len() - 1;
                         *r.cur_heading.last_mut().unwrap() = Some(idx);
@@ -354,6 +361,7 @@ pub fn read(text: &str, dir: &str) -> Reading {
                         let t = r.buf.as_ref().map(|b| b.split_whitespace().collect::<Vec<_>>().join(" ")).unwrap_or_default();
                         if let Some(h) = r.out.headings.last_mut() {
                             h.text = t;
+                            h.full_text = head_full.split_whitespace().collect::<Vec<_>>().join(" ");
                         }
                     }
                     r.flush("");
